@@ -299,7 +299,7 @@ def c03(run):
     nset2 = run.q([8, 63, 64, 65, 128, 129, 200], [8, 9, 63, 64, 65, 127, 128, 129, 191, 192, 193, 256, 300])
     g2 = run.mc('MCAeadStream', aead_cfg(64, 16, nset2, False, run.q(3, 1), 36, invs=inv), name='real_aead', timeout=900)
     inv1 = 'NoCleanEOF RoundTrip CheckFirstReleasesNothingUnverified StreamingHoldsBack IdentityOk GenCase'
-    nset1 = run.q([8, 40, 8151, 8152, 8153, 8192], [8, 9, 40, 200, 8149, 8150, 8151, 8152, 8153, 8154, 8192, 8193, 16342, 16343, 16344])
+    nset1 = run.q([8, 40, 8151, 8152, 8153, 8169, 8170, 8171, 8192, 16340], [8, 9, 40, 200, 8149, 8150, 8151, 8152, 8153, 8154, 8169, 8170, 8171, 8192, 8193, 16339, 16340, 16341, 16342, 16343, 16344])
     g1 = run.mc('MCCfbMdc', cfb_cfg(18, 22, 8192, nset1, both, 1073741824, False, run.q(997, 211), invs=inv1, rel=()), name='real_cfb', timeout=1500)
     # CheckFirst with the configured cap at, just below and just above the length of the data (RFC-conformant messages of exactly the cap
     # must be verified before anything is released; longer ones refused)
